@@ -122,6 +122,16 @@ def directed_receiver_cases():
                     evs.append({"base": ("drop", 1)})
                 evs.append({"base": ("drop", 0)})
                 out.append({"partial": partial, "terms": terms, "events": evs})
+    # the associated constant K (trait default 2, overridden to 1 in the #[unimock] attribute) steps the arguments of the body's required
+    # calls: r1's only pattern accepts exactly the argument the OVERRIDDEN value produces, so a body that sees another K makes a call no
+    # pattern accepts (strict: NoMatchingCallPatterns; partial: CannotUnmock, r1 has no real function)
+    for m in [14, 15, 19, 16, 17, 18]:
+        for partial in (False, True):
+            for a in (2, 6):
+                terms = [{"kind": "call", "mid": 10, "opener": "each", "pat": {"matcher": 255, "dbg": 1, "ops": [("ret", 1)]}},
+                         {"kind": "call", "mid": 11, "opener": "each", "pat": {"matcher": 1 << ((a + 1) % 8), "dbg": 2, "ops": [("ret", 2)]}}]
+                evs = [{"base": ("call", 0, m, a)}] + ([] if m in D.CONSUMING else [{"base": ("drop", 0)}])
+                out.append({"partial": partial, "terms": terms, "events": evs})
     return out
 
 
